@@ -77,3 +77,20 @@ Proof.
   exact (history_restore_today h pre b dls ws post (Hall h Hin) Eh).
 Qed.
 Print Assumptions retained_backup_restores.
+
+(* the same for the code as it is now (repairs of F2, F5, F7 in place) *)
+Theorem retained_backup_restores_repaired : forall es, EventsOK [] es ->
+  forall h pre b dls ws post, In h (sruns [] es) -> h = pre ++ (b, dls, ws) :: post ->
+  exists t, exec repaired (bs_of h) (b_name b) = Some (t, true) /\
+    (forall p m, In (p, SDir m) (sn_of ws) -> t_get p t = Some (RDir (Some m))) /\
+    (forall p m d, In (p, SFile m d) (sn_of ws) -> t_get p t = Some (RFile d (Some m))) /\
+    (forall p m tg, In (p, SSym m tg) (sn_of ws) -> t_get p t = Some (RSym tg m)) /\
+    (forall p n, t_get p t = Some n -> exists x, In (p, x) (sn_of ws)).
+Proof.
+  intros es Hes h pre b dls ws post Hin Eh.
+  assert (Hall : forall ss, Forall HOK ss -> EventsOK ss es -> Forall HOK (sruns ss es)).
+  { clear. induction es as [|e es IH]; intros ss Hs He; cbn [sruns]; auto. destruct He as [H1 H2]. apply IH; auto. now apply sstep_HOK. }
+  specialize (Hall [] (Forall_nil _) Hes). rewrite Forall_forall in Hall.
+  exact (history_restore repaired h pre b dls ws post eq_refl eq_refl (Hall h Hin) Eh).
+Qed.
+Print Assumptions retained_backup_restores_repaired.
